@@ -61,6 +61,8 @@ type Action struct {
 	Twice  bool     `json:"twice,omitempty"` // the same message two times in one transaction
 	// AVS actions (kinds "avs*")
 	Avs *AvsAct `json:"avs,omitempty"`
+	// Ethereum transaction (kind "ethTx")
+	Eth *EthAct `json:"eth,omitempty"`
 	// authorization probes (C10): Signer > 0 makes identity Signer-1 sign a message that names
 	// somebody else as its signer; Forge selects how (sim.ForgeMode). Ident is the identity an
 	// action is about when it is not an operator/staker index; Module names a parameter set.
@@ -122,6 +124,8 @@ type Machine struct {
 	lastTx       []byte // bytes of the last price transaction built
 	bls          []sim.BLSKey
 	avsCommit    map[string]avsCommitRec // operator/task address/id -> what phase one committed to
+	lastEth      *ethBuilt               // the last Ethereum transaction sent by an "ethTx" action
+	blockGas     uint64                  // gas limits of the Ethereum transactions included in the block in progress
 }
 
 type avsCommitRec struct {
@@ -233,9 +237,9 @@ func (m *Machine) Step(a Action) error {
 				n = n[:70]
 			}
 			m.label("why:" + a.Kind + ":" + n)
-			if debugNotes != "" && strings.Contains(o.Note, debugNotes) {
-				fmt.Printf("DEBUGNOTE %s -> %.1800s\n", a.String(), o.Note)
-			}
+		}
+		if debugNotes != "" && strings.Contains(o.Note, debugNotes) {
+			fmt.Printf("DEBUGNOTE %s -> %.2800s\n", a.String(), o.Note)
 		}
 	}
 	for _, inv := range m.Inv {
@@ -493,6 +497,9 @@ func (m *Machine) Apply(a *Action) (Outcome, error) {
 	if strings.HasPrefix(a.Kind, "avs") {
 		return m.applyAvs(a)
 	}
+	if a.Kind == "ethTx" {
+		return m.applyEth(a)
+	}
 	return Outcome{}, fmt.Errorf("unknown action %q", a.Kind)
 }
 
@@ -510,6 +517,7 @@ type midBlocker interface {
 
 func (m *Machine) nextBlock(dt int) error {
 	c := m.C
+	m.blockGas = 0
 	c.EndBlock()
 	c.Commit()
 	if c.Halted == nil {
